@@ -115,6 +115,20 @@ Theorem C04_join_independent_of_stored_layout :
 Proof. exact join_independent_of_layout. Qed.
 Print Assumptions C04_join_independent_of_stored_layout.
 
+(* In particular: listing the stored columns of either operand in another order (heading and projector
+   permuted alike, same rows) is the same relation and joins to the same result. *)
+Theorem C04_relisting_columns_is_the_same_relation :
+  forall q r, wf_rel r -> is_perm q (length (r_attrs r)) ->
+    wf_rel (permute_cols q r) /\ abs (permute_cols q r) = abs r.
+Proof. exact permute_cols_same_relation. Qed.
+Print Assumptions C04_relisting_columns_is_the_same_relation.
+
+Theorem C04_join_ignores_stored_column_order :
+  forall op a b qa qb, wf_rel a -> wf_rel b -> is_perm qa (length (r_attrs a)) -> is_perm qb (length (r_attrs b)) ->
+    exists s s', join_rel op (permute_cols qa a) (permute_cols qb b) = JOk s' /\ join_rel op a b = JOk s /\ den s' = den s.
+Proof. exact join_ignores_column_order. Qed.
+Print Assumptions C04_join_ignores_stored_column_order.
+
 (* positionalRelation.Join itself, on projectors: whichever of JoinKeepEverything / joinOneSide /
    JoinCommonOnly / JoinIfCommonExist createMode selects, the rows returned are exactly
    leftOutput(t) ++ rightOutput(u) for the pairs of rows whose key cells are equal, without
@@ -193,6 +207,10 @@ Example C04_example_join :
                  | _, _ => False
                  end).
 Proof. split; [vm_compute; reflexivity|]. split; [vm_compute; reflexivity|]. intros op; destruct op; vm_compute; reflexivity. Qed.
+
+Example C04_example_permutation : is_perm [1; 0]%nat (length (r_attrs ex_ca)) /\ permute_cols [1; 0]%nat ex_ca
+  = {| r_attrs := [[97]; [99]]; r_p := [1; 0]%nat; r_rows := r_rows ex_ca |}.
+Proof. split; [|reflexivity]. split; [repeat constructor; simpl; intuition congruence|]. split; [reflexivity|]. intros i [<-|[<-|[]]]; simpl; lia. Qed.
 
 Example C04_example_engine_hypotheses :
   width_is [[vint 1; vint 5]] 2 /\ inrange [1%nat] 2 /\ partial_key [1%nat] [0%nat] [0%nat; 1%nat] [1%nat] = false
